@@ -378,6 +378,23 @@ fn summarize_vba(v: &VbaProject) -> Canon {
     Canon { h: s.0, brief: format!("vba modules={:?} refs={}", names, v.get_references().len()) }
 }
 
+/// A borrowed range converted cell by cell into an owned one with exactly the same rectangle.
+pub fn own_range(r: Range<DataRef<'_>>) -> Range<Data> {
+    match (r.start(), r.end()) {
+        (Some(s), Some(e)) => {
+            let mut out = Range::new(s, e);
+            for (i, j, v) in r.cells() {
+                let d: Data = v.clone().into();
+                if d != Data::Empty {
+                    out.set_value((s.0 + i as u32, s.1 + j as u32), d);
+                }
+            }
+            out
+        }
+        _ => Range::empty(),
+    }
+}
+
 impl Wb {
     pub fn kind(&self) -> &'static str {
         match self {
@@ -425,29 +442,11 @@ impl Wb {
     /// `worksheet_range_ref`, converted cell by cell into an owned range; `None` where the
     /// format documents it as unsupported.
     pub fn range_ref_owned(&mut self, name: &str) -> Option<Result<Range<Data>, String>> {
-        fn own(r: Range<DataRef<'_>>) -> Range<Data> {
-            match (r.start(), r.end()) {
-                (Some(s), Some(_)) => {
-                    let mut cells = Vec::new();
-                    for (i, j, v) in r.cells() {
-                        let d: Data = v.clone().into();
-                        cells.push(calamine::Cell::new((s.0 + i as u32, s.1 + j as u32), d));
-                    }
-                    // keep the exact rectangle: from_sparse would shrink it, so rebuild densely
-                    let mut out = Range::new(s, r.end().unwrap());
-                    for c in cells {
-                        out.set_value(c.get_position(), c.get_value().clone());
-                    }
-                    out
-                }
-                _ => Range::empty(),
-            }
-        }
         match self {
-            Wb::Xlsx(w) => Some(w.worksheet_range_ref(name).map(own).map_err(dbg)),
-            Wb::Xlsb(w) => Some(w.worksheet_range_ref(name).map(own).map_err(dbg)),
+            Wb::Xlsx(w) => Some(w.worksheet_range_ref(name).map(own_range).map_err(dbg)),
+            Wb::Xlsb(w) => Some(w.worksheet_range_ref(name).map(own_range).map_err(dbg)),
             Wb::Auto(w @ Sheets::Xlsx(_)) | Wb::Auto(w @ Sheets::Xlsb(_)) => {
-                Some(w.worksheet_range_ref(name).map(own).map_err(err_auto))
+                Some(w.worksheet_range_ref(name).map(own_range).map_err(err_auto))
             }
             _ => None,
         }
@@ -555,6 +554,23 @@ impl Wb {
                         if st.capture {
                             st.last_range = Some(r);
                         }
+                        Outcome::Ok(c)
+                    }
+                    Some(Err(e)) => Outcome::Err(e),
+                }
+            }
+            Op::RangeAtRef(k) if st.capture => {
+                let r: Option<Result<Range<Data>, String>> = match self {
+                    Wb::Xlsx(w) => w.worksheet_range_at_ref(*k).map(|r| r.map(own_range).map_err(dbg)),
+                    Wb::Xlsb(w) => w.worksheet_range_at_ref(*k).map(|r| r.map(own_range).map_err(dbg)),
+                    Wb::Auto(w @ Sheets::Xlsx(_)) | Wb::Auto(w @ Sheets::Xlsb(_)) => w.worksheet_range_at_ref(*k).map(|r| r.map(own_range).map_err(err_auto)),
+                    _ => return Outcome::Skipped("range_at_ref unsupported for eager formats"),
+                };
+                match r {
+                    None => Outcome::Absent,
+                    Some(Ok(r)) => {
+                        let c = canon_range_data(&r);
+                        st.last_range = Some(r);
                         Outcome::Ok(c)
                     }
                     Some(Err(e)) => Outcome::Err(e),
